@@ -615,7 +615,7 @@ def bip38_encrypt(private_hex, address, password, flagbyte=b'\xe0'):
     return base58encode(encrypted_privkey)
 
 
-def bip38_intermediate_password(passphrase, lot=None, sequence=None, owner_salt=os.urandom(8)):
+def bip38_intermediate_password(passphrase, lot=None, sequence=None, owner_salt=None):
     """
     Intermediate passphrase generator for EC multiplied BIP38 encrypted private keys.
     Source: https://github.com/meherett/python-bip38/blob/master/bip38/bip38.py
@@ -638,7 +638,7 @@ def bip38_intermediate_password(passphrase, lot=None, sequence=None, owner_salt=
 
     """
 
-    owner_salt = to_bytes(owner_salt)
+    owner_salt = os.urandom(8) if owner_salt is None else to_bytes(owner_salt)
     if len(owner_salt) not in [4, 8]:
         raise ValueError(f"Invalid owner salt length (expected: 4 or 8 bytes, got: {len(owner_salt)})")
     if len(owner_salt) == 4 and (not lot or not sequence):
@@ -670,7 +670,7 @@ def bip38_intermediate_password(passphrase, lot=None, sequence=None, owner_salt=
     return pubkeyhash_to_addr_base58(magic + owner_entropy + HDKey(pass_factor).public_byte, prefix=b'')
 
 
-def bip38_create_new_encrypted_wif(intermediate_passphrase, compressed=True, seed=os.urandom(24),
+def bip38_create_new_encrypted_wif(intermediate_passphrase, compressed=True, seed=None,
                                    network=DEFAULT_NETWORK):
     """
     Create new encrypted WIF BIP38 EC multiplied key. Use :func:`bip38_intermediate_password` to create an
@@ -689,7 +689,7 @@ def bip38_create_new_encrypted_wif(intermediate_passphrase, compressed=True, see
 
     """
 
-    seed_b = to_bytes(seed)
+    seed_b = os.urandom(24) if seed is None else to_bytes(seed)
     intermediate_password_bytes = change_base(intermediate_passphrase,58, 256)
     check = intermediate_password_bytes[-4:]
     intermediate_decode = intermediate_password_bytes[:-4]
